@@ -49,7 +49,12 @@ func (it *Iterator) Valid() bool {
 
 // Key 返回当前位置的 key
 func (it *Iterator) Key() []byte {
-	return it.indexIter.Key()
+	key := it.indexIter.Key()
+	if key == nil {
+		return nil
+	}
+	// 返回副本: BTree 与 SkipList 索引的迭代器返回的是索引内部持有的 key, 调用方修改后会破坏索引
+	return append([]byte{}, key...)
 }
 
 // Value 返回当前位置 key 对应的实际 value
